@@ -262,10 +262,10 @@ def oracle_builtin(case, r):
         # variances well above the 1e-16 floor by construction of the data scales
         neg = -tol
         for c, v in zip(r["c3"], r["change"]):
-            if min(v) < neg:
+            if not min(v) >= neg:
                 return f"change score of {case['cost']} at {c} is negative: {v} (splitting must not increase the optimal cost)"
         for c, v in zip(r["c2"], r["saving"]):
-            if min(v) < neg:
+            if not min(v) >= neg:
                 return f"saving of {case['cost']} at {c} is negative: {v} (the optimal cost must not exceed the fixed-parameter cost)"
     return None
 
